@@ -66,8 +66,9 @@ class TopocentricFrame(frames.Frame):
             event_classes = tuple(listener.event for listener in sta_list)
 
         for point in orb.iter(**kwargs):
-            point.frame = self
-            point.form = "spherical"
+            # The point is converted on a copy: the listeners keep the yielded
+            # object as their previous sample
+            point = point.copy(frame=self, form="spherical")
 
             # Not very clean !
             if point.phi < 0 and not isinstance(point.event, event_classes):
